@@ -149,6 +149,7 @@ func (st *ValStats) addGo(obs string) {
 }
 
 func (st *ValStats) Print() {
+	fmt.Printf("observer calls compared: %d\n", st.Events)
 	fmt.Printf("validate correspondence: cases=%d valid=%d panics=%d suggestion-order ties tolerated=%d skipped=%v\n", st.Cases, st.Valid, st.Panics, st.Ties, st.Skipped)
 	rules := make([]string, 0, len(st.PerRule))
 	for r := range st.PerRule {
@@ -224,8 +225,8 @@ func (c *Ctx) corrValidate(pairs [][2]string, rules string, st *ValStats) {
 	var dreqs []string
 	var idx []int
 	for i, o := range goOut {
-		parts := strings.SplitN(o, " # ", 3)
-		if len(parts) != 3 {
+		parts := strings.SplitN(o, " # ", 4)
+		if len(parts) != 4 {
 			key := o
 			if strings.HasPrefix(o, "CRASH") {
 				key = "CRASH"
@@ -239,21 +240,21 @@ func (c *Ctx) corrValidate(pairs [][2]string, rules string, st *ValStats) {
 			st.mu.Unlock()
 			continue
 		}
-		dreqs = append(dreqs, "validatelinks "+rules+" "+parts[2])
+		dreqs = append(dreqs, "validatelinks "+rules+" "+parts[3])
 		idx = append(idx, i)
 	}
 	model := c.Driver.Map(dreqs)
 	st.mu.Lock()
 	defer st.mu.Unlock()
 	for k, i := range idx {
-		parts := strings.SplitN(goOut[i], " # ", 3)
-		mp := strings.SplitN(model[k], " # ", 2)
+		parts := strings.SplitN(goOut[i], " # ", 4)
+		mp := strings.SplitN(model[k], " # ", 3)
 		st.Cases++
 		c.Ev.Traces++
 		c.Ev.Case(parts[0], parts[0] != "OK")
 		st.addGo(parts[0])
 		replay := map[string]any{"op": "validate", "rules": rules, "schema": pairs[i][0], "document": pairs[i][1], "go_observation": parts[0], "model_observation": model[k]}
-		if len(mp) != 2 {
+		if len(mp) != 3 {
 			c.Report("correspondence", "validate-model-reply", fmt.Sprintf("model reply %q on %q", trunc(model[k], 200), pairs[i][1]), replay)
 			continue
 		}
@@ -263,6 +264,12 @@ func (c *Ctx) corrValidate(pairs [][2]string, rules string, st *ValStats) {
 			} else {
 				c.Report("correspondence", "validate-errors-differ:"+firstDiffRule(parts[0], mp[0]), fmt.Sprintf("validator and model disagree (rules %s) on %q:\n go    = %s\n model = %s", trunc(rules, 60), pairs[i][1], readable(parts[0]), readable(mp[0])), replay)
 			}
+		}
+		st.Events += strings.Count(parts[2], ",") + 1
+		if parts[2] != mp[2] {
+			replay["go_events"] = parts[2]
+			replay["model_events"] = mp[2]
+			c.Report("correspondence", "validate-events-differ", fmt.Sprintf("observer call sequences differ on %q:\n go    = %s\n model = %s", pairs[i][1], trunc(parts[2], 600), trunc(mp[2], 600)), replay)
 		}
 		if parts[1] != mp[1] {
 			replay["go_links"] = parts[1]
